@@ -6,6 +6,7 @@ res = {}
 for l in open(os.path.join(SRC, "results.jsonl")):
     d = json.loads(l); res.setdefault(d["label"], []).append(d)
 out = "/verif/seeded"
+NOTES = json.load(open(os.path.join(out, "_notes.json"))) if os.path.exists(os.path.join(out, "_notes.json")) else {}
 os.makedirs(out, exist_ok=True)
 rows = []
 for lab in sorted(res):
@@ -31,15 +32,17 @@ for lab in sorted(res):
     meta["evaluation"] = {"runs": evals, "caught_by": caught, "note": "each run: git -C /repo apply patch.diff; bin/check <check> --seconds 30..40; git -C /repo checkout -- .  Earlier runs with exit 0 are first-pass misses that led to a generator or oracle change (DESIGN.md 11.6); exit 2 = the machinery was being edited during that run."}
     if os.path.exists(ported):
         meta["ported"] = "patch.diff is the change re-applied by hand to the current /repo HEAD (later fix: commits touch the same lines); patch.as-written.diff is the original"
+    if lab in NOTES:
+        meta["note"] = NOTES[lab]
     json.dump(meta, open(os.path.join(dst, "meta.json"), "w"), indent=1)
     first = res[lab][0]
     own = final.get(real, (0, []))[0] == 1
     rows.append((lab, meta.get("summary", "")[:150].replace("|", "/"), "yes" if first["rc"] == 1 and first["prop"] == real else "no", "yes" if own else "no",
-                 ", ".join("%s: %s" % (c, "; ".join(final[c][1][:2])) for c in caught) or "NOT CAUGHT"))
+                 (", ".join("%s: %s" % (c, "; ".join(final[c][1][:2])) for c in caught) or "NOT CAUGHT") + (" — note: " + NOTES[lab][:160].replace("|", "/") + "…" if lab in NOTES else "")))
 with open(os.path.join(out, "INDEX.md"), "w") as f:
     f.write("# Seeded breaking changes\n\nEach directory: `patch.diff` (applies to /repo HEAD with `git -C /repo apply`), `demonstration_test.go.txt` (the author's demonstration: drop into the package named in its first comment as `demo_test.go`), `meta.json` (author's description + every evaluation run).\n\nAuthors were fresh sub-agents that saw only the text of one property and a scratch worktree (waves 2 and 3, suffixes b and c, additionally saw one-line summaries of the earlier changes for the same property, to avoid duplicates). \"first pass\" = caught by the property's own check as it was when the change arrived; \"own check\" = the property's own check reports it now; the last column lists every check that reports it now.\n\n| change | what it does | first pass | own check | reported by (final machinery): signatures |\n|---|---|---|---|---|\n")
     for r in rows:
         f.write("| %s | %s | %s | %s | %s |\n" % r)
-    n = len(rows); c = sum(1 for r in rows if r[4] != "NOT CAUGHT"); fp = sum(1 for r in rows if r[2] == "yes"); own = sum(1 for r in rows if r[3] == "yes")
+    n = len(rows); c = sum(1 for r in rows if not r[4].startswith("NOT CAUGHT")); fp = sum(1 for r in rows if r[2] == "yes"); own = sum(1 for r in rows if r[3] == "yes")
     f.write("\n%d changes; %d caught by their own check on first pass; %d caught by their own check now; %d caught by some check now.\n" % (n, fp, own, c))
-print(len(rows), [r[0] for r in rows if r[4] == "NOT CAUGHT"], "own-miss:", [r[0] for r in rows if r[3] == "no" and r[4] != "NOT CAUGHT"])
+print(len(rows), [r[0] for r in rows if r[4].startswith("NOT CAUGHT")], "own-miss:", [r[0] for r in rows if r[3] == "no" and not r[4].startswith("NOT CAUGHT")])
